@@ -9,6 +9,7 @@
  */
 #include <iv_event.h>
 #include <time.h>
+#include <poll.h>
 #define MT_SPIN_MONITOR
 #include "mt.h"
 
@@ -28,6 +29,10 @@ static int actions_left[MAXLOOP];
 /* a descriptor per owner that posters make readable, so that kicks and descriptor readiness arrive together */
 static int noise[MAXLOOP][2];
 static struct iv_fd *noise_fd[MAXLOOP];
+static int idle_pipe[MAXLOOP][2];		/* never written to: its read end is never readable */
+static struct iv_fd *idle_fd[MAXLOOP];	/* a struct that used to watch the noise descriptor, re-used in place for the idle one */
+static _Atomic long idle_reuses;
+static void idle_cb(void *cookie);
 static _Atomic long noise_writes, noise_entries;
 static _Atomic int posters_in_post, overlaps;
 static _Atomic long total_posts, total_entries, remote_posts, self_posts, unreg_pending, regs, reregs_after_zero;
@@ -160,8 +165,26 @@ static void event_cb(void *cookie)
 	if (rng_pct(&lt->rng, 12) && noise_fd[lt->idx] != NULL) {
 		/* drop the descriptor that posters keep making readable and register a fresh struct for it: its readiness may be in the same batch as this kick */
 		iv_fd_unregister(noise_fd[lt->idx]);
-		memset(noise_fd[lt->idx], 0xDD, sizeof(struct iv_fd));
-		free(noise_fd[lt->idx]);
+		if (idle_pipe[lt->idx][0] > 0 && rng_pct(&lt->rng, 45)) {
+			/* the struct is used again at once, in place, for a descriptor that is never ready: whatever readiness the library had
+			 * collected for the old registration must not be charged to the new one */
+			struct iv_fd *f = noise_fd[lt->idx];
+			if (idle_fd[lt->idx] != NULL) {
+				iv_fd_unregister(idle_fd[lt->idx]);
+				memset(idle_fd[lt->idx], 0xDD, sizeof(struct iv_fd));
+				free(idle_fd[lt->idx]);
+			}
+			IV_FD_INIT(f);
+			f->fd = idle_pipe[lt->idx][0];
+			f->cookie = lt;
+			f->handler_in = idle_cb;
+			iv_fd_register(f);
+			idle_fd[lt->idx] = f;
+			atomic_fetch_add(&idle_reuses, 1);
+		} else {
+			memset(noise_fd[lt->idx], 0xDD, sizeof(struct iv_fd));
+			free(noise_fd[lt->idx]);
+		}
 		noise_fd[lt->idx] = malloc(sizeof(struct iv_fd));
 		IV_FD_INIT(noise_fd[lt->idx]);
 		noise_fd[lt->idx]->fd = noise[lt->idx][0];
@@ -231,6 +254,19 @@ static void noise_cb(void *cookie);
 static struct iv_timer *far_timer[MAXLOOP];
 static void far_cb(void *c) { struct loopthr *lt = c; MT_CB(); free(far_timer[lt->idx]); far_timer[lt->idx] = NULL; }
 
+static void idle_cb(void *cookie)
+{
+	struct loopthr *lt = cookie;
+	struct pollfd pf = { idle_pipe[lt->idx][0], POLLIN, 0 };
+	int r;
+	MT_CB();
+	r = __real_poll(&pf, 1, 0);
+	mon_viol("C03", "handler-without-condition", g_method,
+		 "the input handler of descriptor %d (a pipe nobody ever writes to; poll(2) says revents 0x%x) was invoked: readiness collected for an earlier registration of the same struct was charged to it",
+		 pf.fd, r > 0 ? (unsigned)pf.revents : 0u);
+	mon_viol("C01", "stale-readiness", "fd", "readiness collected before an unregister call was acted upon after it (struct re-used for another descriptor)");
+}
+
 static void noise_cb(void *cookie)
 {
 	struct loopthr *lt = cookie;
@@ -247,6 +283,9 @@ static void noise_cb(void *cookie)
 
 static void scn_setup(struct loopthr *lt)
 {
+	idle_fd[lt->idx] = NULL;
+	if (__real_pipe(idle_pipe[lt->idx]) < 0)
+		idle_pipe[lt->idx][0] = idle_pipe[lt->idx][1] = -1;
 	if (__real_pipe(noise[lt->idx]) == 0) {
 		fcntl(noise[lt->idx][0], F_SETFL, O_NONBLOCK);
 		fcntl(noise[lt->idx][1], F_SETFL, O_NONBLOCK);
@@ -285,6 +324,16 @@ static void scn_ctl(struct loopthr *lt, char cmd)
 		iv_timer_unregister(far_timer[lt->idx]);
 		free(far_timer[lt->idx]);
 		far_timer[lt->idx] = NULL;
+	}
+	if (idle_fd[lt->idx] != NULL) {
+		iv_fd_unregister(idle_fd[lt->idx]);
+		free(idle_fd[lt->idx]);
+		idle_fd[lt->idx] = NULL;
+	}
+	if (idle_pipe[lt->idx][0] > 0) {
+		__real_close(idle_pipe[lt->idx][0]);
+		__real_close(idle_pipe[lt->idx][1]);
+		idle_pipe[lt->idx][0] = idle_pipe[lt->idx][1] = -1;
 	}
 	if (noise_fd[lt->idx] != NULL) {
 		iv_fd_unregister(noise_fd[lt->idx]);
@@ -512,11 +561,11 @@ int main(int argc, char **argv)
 		run_case(i, seed);
 	mon_printf("STAT method=%s cases=%llu posts=%llu handler_entries=%llu remote_posts=%llu owner_posts=%llu cases_with_overlapping_posts=%llu "
 		   "obligations=%llu discharged=%llu unregistered_while_pending=%llu events_registered=%llu kick_object_recreated=%llu "
-		   "noise_writes=%llu noise_handler_entries=%llu tasks_registered=%ld tasks_ran=%ld failed_registrations_under_fault=%ld quit_and_reenter=%ld final_quiescences=%llu shim_quiescences=%llu time_advances=%llu perturb_yield=%llu perturb_sleep=%llu priority_changes=%llu priority_deferrals=%llu threads_created=%llu injected=%llu violations=%d\n",
+		   "noise_writes=%llu noise_handler_entries=%llu tasks_registered=%ld tasks_ran=%ld failed_registrations_under_fault=%ld quit_and_reenter=%ld structs_reused_for_idle_descriptor=%ld final_quiescences=%llu shim_quiescences=%llu time_advances=%llu perturb_yield=%llu perturb_sleep=%llu priority_changes=%llu priority_deferrals=%llu threads_created=%llu injected=%llu violations=%d\n",
 		   g_method, (unsigned long long)S.cases, (unsigned long long)S.posts, (unsigned long long)S.entries,
 		   (unsigned long long)S.remote, (unsigned long long)S.self, (unsigned long long)S.overlaps_cases,
 		   (unsigned long long)S.obligations, (unsigned long long)S.discharged, (unsigned long long)S.unreg_pending,
-		   (unsigned long long)S.regs, (unsigned long long)S.zero_cross, (unsigned long long)noise_writes, (unsigned long long)noise_entries, (long)tasks_registered, (long)tasks_ran, (long)failed_regs, (long)quit_reenters, (unsigned long long)S.quiescences,
+		   (unsigned long long)S.regs, (unsigned long long)S.zero_cross, (unsigned long long)noise_writes, (unsigned long long)noise_entries, (long)tasks_registered, (long)tasks_ran, (long)failed_regs, (long)quit_reenters, (long)idle_reuses, (unsigned long long)S.quiescences,
 		   (unsigned long long)vt_stats.quiescences, (unsigned long long)vt_stats.time_advances,
 		   (unsigned long long)vt_stats.perturb_yield, (unsigned long long)vt_stats.perturb_sleep, (unsigned long long)vt_stats.pct_changes, (unsigned long long)vt_stats.pct_deferrals,
 		   (unsigned long long)vt_stats.threads_created, (unsigned long long)vt_stats.injected, mon_viol_total);
